@@ -365,6 +365,18 @@ package cl
 //@   on-call Call#1 scope: $arg0 == s
 
 // ---------------------------------------------------------------------------
+// C02: read-from-string reads the window start..end of the text exactly as it
+// would read that text on its own: the position it returns is the window's own
+// result moved by start, so (unless whitespace is preserved) it never rests on
+// a whitespace character of the window.
+//@ define blank(b) = b == 32 || b == 10 || b == 9 || b == 13
+//@ define position(r) = as(as(r, slip.Values)[1], slip.Fixnum)
+//@ func cl.(*ReadFromString).Call
+//@   property C02
+//@   on-call ReadOne reads-the-window: $arg0 == buf && $arg1 == s
+//@   ensures rests-on-non-blank: (len(code) > 0 && !pw && 0 <= position(result0) - start && position(result0) - start < len(buf)) ==> !blank(buf[position(result0) - start])
+
+// ---------------------------------------------------------------------------
 // C14: sequence functions honour their keywords.
 //@ stable-struct cl.seqFunVars cl.dupInfo cl.control
 
